@@ -358,7 +358,12 @@ fn step<F: Flavour>(st: &mut St<F>, op: &COp, stats: &mut Stats) -> Result<(), (
             let mut order: Vec<usize> = st.members.values().copied().collect();
             Rng::new(*order_seed).shuffle(&mut order);
             let before: Vec<usize> = F::g_iter(st.g()).iter().map(|x| x.0).collect();
-            let mut g = F::g_new();
+            // the new instance comes from new(), default() or with_capacity(), by the seed
+            let mut g = match *order_seed % 3 {
+                0 => F::g_new(),
+                1 => F::g_default(),
+                _ => F::g_with_capacity((*order_seed % 97) as usize).unwrap_or_else(F::g_new),
+            };
             for oid in order {
                 F::g_insert(&mut g, st.obj(oid).clone());
             }
